@@ -253,6 +253,57 @@ pub fn solve(prob: &Prob, intercept: bool) -> Option<f64> {
     Some(cp.objective(&w, &zeros))
 }
 
+/// Number of sweeps the textbook cyclic (block) coordinate descent needs, from W = 0 and on the problem
+/// exactly as the implementation poses it (records as given, targets centred when an intercept is fitted),
+/// until the standard elastic-net duality gap is below `margin * tol * ||y||^2` and the largest coefficient
+/// change of the sweep is below `tol / 10` of the largest coefficient. None if not within `max_sweeps`.
+pub fn cd_sweeps_to_converge(prob: &Prob, intercept: bool, tol: f64, margin: f64, max_sweeps: usize) -> Option<usize> {
+    let (n, p, t) = (prob.n, prob.p, prob.t);
+    let nf = n as f64;
+    let y: Vec<Vec<f64>> = if intercept { centre(&prob.y).0 } else { prob.y.clone() };
+    let x = &prob.x;
+    let (l1, l2) = (nf * prob.lam1, nf * prob.lam2);
+    let csq: Vec<f64> = (0..p).map(|j| prob.col_sq(j)).collect();
+    let ysq: f64 = y.iter().flatten().map(|v| v * v).sum();
+    if ysq == 0.0 {
+        return None;
+    }
+    let mut w = vec![vec![0.0; t]; p];
+    let mut r = y.clone();
+    for sweep in 1..=max_sweeps {
+        let (mut w_max, mut d_max): (f64, f64) = (0.0, 0.0);
+        for j in 0..p {
+            if csq[j] <= f64::EPSILON {
+                continue;
+            }
+            let c: Vec<f64> = (0..t).map(|tt| (0..n).map(|i| x[i][j] * r[i][tt]).sum::<f64>() + csq[j] * w[j][tt]).collect();
+            let v: Vec<f64> = bst(&c, l1).iter().map(|u| u / (csq[j] + l2)).collect();
+            let d: Vec<f64> = (0..t).map(|tt| v[tt] - w[j][tt]).collect();
+            for i in 0..n {
+                for tt in 0..t {
+                    r[i][tt] -= x[i][j] * d[tt];
+                }
+            }
+            d_max = d_max.max(norm(&d));
+            w_max = w_max.max(norm(&v));
+            w[j] = v;
+        }
+        // duality gap (same formula as scikit-learn / the implementation)
+        let xta: Vec<Vec<f64>> = (0..p).map(|j| (0..t).map(|tt| (0..n).map(|i| x[i][j] * r[i][tt]).sum::<f64>() - l2 * w[j][tt]).collect()).collect();
+        let dual_norm = xta.iter().map(|row| norm(row)).fold(0.0, f64::max);
+        let r2: f64 = r.iter().flatten().map(|v| v * v).sum();
+        let w2: f64 = w.iter().flatten().map(|v| v * v).sum();
+        let (c, mut gap) = if dual_norm > l1 { (l1 / dual_norm, 0.5 * (r2 + r2 * (l1 / dual_norm).powi(2))) } else { (1.0, r2) };
+        let ry: f64 = (0..n).map(|i| (0..t).map(|tt| r[i][tt] * y[i][tt]).sum::<f64>()).sum();
+        gap += l1 * w.iter().map(|row| norm(row)).sum::<f64>() - c * ry + 0.5 * l2 * (1.0 + c * c) * w2;
+        let stable = w_max == 0.0 || d_max / w_max < tol / 10.0;
+        if stable && gap < margin * tol * ysq {
+            return Some(sweep);
+        }
+    }
+    None
+}
+
 /// Unit-norm columns (+ constant column) have full column rank.
 pub fn full_column_rank(x: &[Vec<f64>], intercept: bool) -> bool {
     let n = x.len();
